@@ -56,6 +56,46 @@ func c09Rules(p *core.Prog, r *core.Run) {
 	// --- EXIT
 	keyLoopExits(p, r, m, "C09.EXIT")
 	c09Keys(p, r, m, "C09.KEYS")
+	// outside the key loop nothing is decided by looking at the keys: a way out
+	// of the hello handler that does not go through the processor depends on
+	// the hello alone (a shortcut on the first key with the hello's config id,
+	// a name table built from the keys, ... make the outcome depend on which
+	// other keys are configured and in which order)
+	if m.handle != nil {
+		var procCalls []ssa.Instruction
+		for _, s := range allCalls(p, []*ssa.Function{m.handle}) {
+			if s.X.Fn == m.process {
+				procCalls = append(procCalls, s.Instr)
+			}
+		}
+		nPre := 0
+		for i, ret := range core.Returns(m.handle) {
+			after := false
+			for _, c := range procCalls {
+				if core.MayFollow(c, ret) {
+					after = true
+				}
+			}
+			if after {
+				continue
+			}
+			nPre++
+			dep := ""
+			for _, f := range p.Facts(ret.Block()) {
+				// ("are there keys at all" is not a look at the keys)
+				if f.L != nil && f.L.Op == "call" && f.L.Name == "len" && f.L.Args[0].Op == "field" && f.L.Args[0].Obj == m.fConn["keys"] && f.R != nil && f.R.Op == "const" && f.R.Name == "0" {
+					continue
+				}
+				for _, e := range []*core.Expr{f.L, f.R} {
+					if e != nil && e.Any(func(x *core.Expr) bool { return x.Op == "field" && x.Obj == m.fConn["keys"] }) {
+						dep = f.String()
+					}
+				}
+			}
+			r.Check("C09.EXIT", fmt.Sprintf("handler:pre-trial-return#%d", i), dep == "", p.InstrPos(ret), "this way out of %s lies in front of the trial decryption and is decided without looking at the configured keys (%s)", p.FuncName(m.handle), dep)
+		}
+		r.Check("C09.EXIT", "handler:pre-trial-returns", len(procCalls) == 1, p.Pos(m.handle.Pos()), "%d ways out of the handler in front of its %d call(s) of the processor examined", nPre, len(procCalls))
+	}
 	// a hello is given up as "nobody's" only after every key was tried: no
 	// way out of the processor that reports no-match lies in front of (or
 	// inside) the key loop - a shortcut on summary data about the keys (a table
